@@ -286,6 +286,8 @@ def build_args(call):
         kw["request"] = make_native_dict(req_cls, unb64(call["request_b64"]))
     elif mode == "request-literal-dict":         # (C12) the dict a caller writes by hand, NOT derived from bytes through the generated class
         kw["request"] = call["request_literal"]  # (a wrongly bound field type cannot hide in unknown fields)
+    elif mode == "request-tagged-literal":       # (C03) literal built by the PARENT under the input descriptors; tags carry what JSON cannot
+        kw["request"] = untag_literal(call["request_literal"])
     elif mode == "request-none":
         pass
     if mode in ("kwargs", "mixed"):
@@ -317,7 +319,28 @@ def build_args(call):
                            multiplier=r.get("multiplier", 2.0), timeout=r.get("deadline", 10.0))
     if "metadata" in ck:
         kw["metadata"] = [tuple(x) for x in ck["metadata"]]
+    if call.get("positional"):                   # (C03) `client.method(request)` instead of `client.method(request=request)`
+        for name in ("request", "requests"):
+            if name in kw:
+                args.append(kw.pop(name))
+                break
     return args, kw
+
+
+def untag_literal(x):
+    """(C03) {"@b": base64} -> bytes; {"@map": [[k, v], …]} -> dict with native (int/bool/str) keys;
+    {"@pb": "module:Class", "b64": …} -> a protobuf message instance (map values of protobuf classes)"""
+    if isinstance(x, dict):
+        if set(x) == {"@b"}:
+            return unb64(x["@b"])
+        if set(x) == {"@map"}:
+            return {untag_literal(k): untag_literal(v) for k, v in x["@map"]}
+        if "@pb" in x:
+            return make_instance(locate(x["@pb"]), unb64(x["b64"]))
+        return {k: untag_literal(v) for k, v in x.items()}
+    if isinstance(x, list):
+        return [untag_literal(v) for v in x]
+    return x
 
 
 def consume_sync(ret, how):
@@ -544,10 +567,13 @@ def op_grpc_multi_session(o):
             do = st["do"]
             if do == "create":
                 try:
-                    port = servers[st["server"]].port
-                    ch = grpc.aio.insecure_channel(f"127.0.0.1:{port}") if is_async else grpc.insecure_channel(f"127.0.0.1:{port}")
-                    transport = locate(o["transport"])(channel=ch)
-                    clients[st["name"]] = (locate(o["client"])(transport=transport), transport, ch)
+                    if st.get("channel_of"):          # a client (possibly of ANOTHER service of the API) on an existing channel
+                        ch = clients[st["channel_of"]][2]
+                    else:
+                        port = servers[st["server"]].port
+                        ch = grpc.aio.insecure_channel(f"127.0.0.1:{port}") if is_async else grpc.insecure_channel(f"127.0.0.1:{port}")
+                    transport = locate(st.get("transport_cls") or o["transport"])(channel=ch)
+                    clients[st["name"]] = (locate(st.get("client_cls") or o["client"])(transport=transport), transport, ch)
                     results.append({"created": st["name"]})
                 except BaseException as e:  # noqa
                     results.append({"raised": exc_name(e), "msg": str(e)[:300], "trace": traceback.format_exc()[-600:]})
@@ -574,11 +600,39 @@ def op_grpc_multi_session(o):
                                 for it in items:
                                     yield it
                             kw["requests"] = agen()
-                        ret = getattr(client, st["method"])(*args, **kw)
-                        for _ in range(3):
-                            if asyncio.iscoroutine(ret) or hasattr(ret, "__await__"):
-                                ret = await ret
-                        res = {"ok": await consume_async(ret, st.get("consume", "auto"))}
+                        if st.get("with_ctx"):        # `async with client as c: await c.method(...)`, leaving the block judged apart
+                            c = await client.__aenter__()
+                            try:
+                                ret = getattr(c, st["method"])(*args, **kw)
+                                for _ in range(3):
+                                    if asyncio.iscoroutine(ret) or hasattr(ret, "__await__"):
+                                        ret = await ret
+                                res = {"ok": await consume_async(ret, st.get("consume", "auto"))}
+                            finally:
+                                try:
+                                    await client.__aexit__(None, None, None)
+                                    exit_raised = None
+                                except BaseException as e:  # noqa
+                                    exit_raised = [exc_name(e), str(e)[:200]]
+                            res["exit_raised"] = exit_raised
+                        else:
+                            ret = getattr(client, st["method"])(*args, **kw)
+                            for _ in range(3):
+                                if asyncio.iscoroutine(ret) or hasattr(ret, "__await__"):
+                                    ret = await ret
+                            res = {"ok": await consume_async(ret, st.get("consume", "auto"))}
+                    elif st.get("with_ctx"):          # `with client as c: c.method(...)`, leaving the block judged apart
+                        c = client.__enter__()
+                        try:
+                            ret = getattr(c, st["method"])(*args, **kw)
+                            res = {"ok": consume_sync(ret, st.get("consume", "auto"))}
+                        finally:
+                            try:
+                                client.__exit__(None, None, None)
+                                exit_raised = None
+                            except BaseException as e:  # noqa
+                                exit_raised = [exc_name(e), str(e)[:200]]
+                        res["exit_raised"] = exit_raised
                     else:
                         ret = getattr(client, st["method"])(*args, **kw)
                         res = {"ok": consume_sync(ret, st.get("consume", "auto"))}
